@@ -84,8 +84,8 @@ inline void subsets(size_t m, size_t k, std::vector<std::vector<size_t>> &out) {
 }
 
 // ------------------------------------------------------------------ deviations
-enum DevKind { D_NONE = 0, D_BUILTIN, D_WRONG_SHARE, D_FALSE_COMPLAINT, D_SILENT, D_BC_ALTER, D_BAD_REVEAL, D_KINDS };
-inline const char *dev_name(int k) { static const char *n[] = {"none", "builtin", "wrong_share", "false_complaint", "silent", "bc_alter", "bad_reveal"}; return (k >= 0 && k < D_KINDS) ? n[k] : "?"; }
+enum DevKind { D_NONE = 0, D_BUILTIN, D_WRONG_SHARE, D_FALSE_COMPLAINT, D_SILENT, D_BC_ALTER, D_BAD_REVEAL, D_SHIFT, D_KINDS };
+inline const char *dev_name(int k) { static const char *n[] = {"none", "builtin", "wrong_share", "false_complaint", "silent", "bc_alter", "bad_reveal", "shift"}; return (k >= 0 && k < D_KINDS) ? n[k] : "?"; }
 struct Dev {
 	int kind = D_NONE;
 	int phase = -1;      // phase the deviation acts in (-1: every phase)
@@ -93,6 +93,8 @@ struct Dev {
 	long k = 0;          // wrong_share: index of the message on the link; false_complaint: before the k-th end marker (1-based);
 	                     // silent: after k broadcasts of the phase; bc_alter: the k-th broadcast of the phase (1-based);
 	                     // bad_reveal: wrong first share to the victim AND the k-th broadcast (the published share) altered
+	                     // shift (zero sharing): the party deals f(z)+1, f'(z)+1 coherently: first commitment g*h instead of 1,
+	                     // every share +1 - consistent with equation (1), only the check C_i0 = 1 can catch it
 	long k2 = 1;         // false_complaint: how often the complaint value is inserted (2 = duplicated complaint)
 	std::string json() const { return J().kv("kind", dev_name(kind)).kv("phase", phase).kv("victim", (long long)victim).kv("k", (long long)k).kv("k2", (long long)k2).str(); }
 };
@@ -103,7 +105,7 @@ struct World;
 // Honest parties use the same class with dev.kind == D_NONE (pure pass-through + counting).
 class DevUnicast : public SimUnicast {
 public:
-	World *W; bool is_bc; Dev dev; Z q;
+	World *W; bool is_bc; Dev dev; Z q, gh;
 	CachinKursawePetzoldShoupRBC *rbc = nullptr;
 	int cur_phase = 0;
 	long nb = 0, nend = 0, link_cnt = 0;           // per phase: own broadcasts, own end markers, messages to the victim
@@ -146,6 +148,7 @@ inline bool DevUnicast::Receive(std::vector<mpz_ptr> &m, size_t &i_out, const si
 }
 
 inline bool DevUnicast::Send(mpz_srcptr m, const size_t i, time_t to) {
+	if (!is_bc && dev.kind == D_SHIFT && active()) { Z w(m); mpz_add_ui(w.v, w.v, 1); mpz_mod(w.v, w.v, q.v); fired = true; return SimUnicast::Send(w.v, i, to); }
 	if (!is_bc && (dev.kind == D_WRONG_SHARE || dev.kind == D_BAD_REVEAL) && active() && i == dev.victim) {
 		if (link_cnt++ == (dev.kind == D_BAD_REVEAL ? 0 : dev.k)) {
 			Z w(m); mpz_add_ui(w.v, w.v, 1); mpz_mod(w.v, w.v, q.v); fired = true;
@@ -177,6 +180,7 @@ inline bool DevUnicast::Send(const std::vector<mpz_srcptr> &m, const size_t i, t
 				nesting = false;
 				repl = true; mpz_set(repl_id.v, m[0]); mpz_set(repl_s.v, m[2]); mpz_set_ui(repl_val.v, (unsigned long)dev.victim);
 			}
+			if (dev.kind == D_SHIFT && nb == 1) { repl = true; fired = true; mpz_set(repl_id.v, m[0]); mpz_set(repl_s.v, m[2]); mpz_set(repl_val.v, gh.v); }
 			if ((dev.kind == D_BC_ALTER || dev.kind == D_BAD_REVEAL) && nb == dev.k) {
 				repl = true; fired = true; mpz_set(repl_id.v, m[0]); mpz_set(repl_s.v, m[2]); mpz_add_ui(repl_val.v, m[4], 1UL);
 			}
